@@ -57,7 +57,7 @@ for p in conf:
         merge_append(p)
     elif p in ("known_findings.json", "tools/claims/_hooks.json"):
         merge_json_lists(p)
-    elif p in ("MANIFEST.json",):
+    elif p in ("MANIFEST.json", "harness/Cargo.lock") or p.startswith("evidence/"):
         subprocess.check_call(["git", "checkout", "--ours", p])
     else:
         print("UNRESOLVED:", p); continue
